@@ -1,15 +1,35 @@
 """C28 — multi-node clients rotate through nodes regardless of failures.
 
-Fault enumeration: for n in 1..4 nodes, EVERY outcome sequence over
-{ok, RpcError(404), RpcError(500 permanent), transport exception} of length L is
-driven through the real RpcMultiNode.request -> real RpcNode.request with
-requests.request replaced by a recording fake.  Oracle (the statement): the i-th
-request reaches node i mod n.  The state machine has one variable (_next_i), so the
-tree of depth L over a 4-letter alphabet covers all of its reachable behaviours.
+Fault enumeration: real RpcMultiNode objects (raw, and behind the real ShellQuery tree) are driven over a
+recording fake of requests.request; every call is given one of {ok, RpcError(404), RpcError(500 permanent),
+transport exception}.  Oracle (the statement): the i-th request OF A CLIENT reaches node i mod n OF THAT CLIENT.
+
+Five families of cases, all judged call by call:
+  seq    a fresh client per outcome sequence: EVERY sequence of length L, for every entry point; behind the
+         ShellQuery layer the calls cycle through five kinds of query (streaming monitor, plain GET, the
+         raw-context queries that carry their own timeout, a POST helper) in every phase, and every word over
+         kind x outcome up to a smaller length;
+  long   ONE long-lived client that is fed every outcome word of width W back to back, far beyond the small
+         powers of two at which a counter could wrap;
+  multi  two clients with n_a, n_b nodes used alternately in one process (every word over client x outcome), the
+         second one created after the first has already sent requests;
+  shared ONE client used through three handles (two ShellQuery trees and the client itself), every word over
+         handle x outcome;
+  tree   a request through EVERY registered query class of the tree (itself, a child attribute, a child item; GET
+         and its POST/PUT/DELETE helper), between probe requests, used twice.
+A case is self-contained (it creates all the clients it needs), so replaying it in a fresh process gives the same
+verdict whatever state the code under test keeps at class or module level; observe() therefore runs in a fresh
+interpreter.
 """
 from __future__ import annotations
 
+import inspect
 import itertools
+import json
+import os
+import re
+import subprocess
+import sys
 
 from mc.engine.report import Result
 from mc.fakes import FakeResponse, patched_http
@@ -17,108 +37,563 @@ from mc.fakes import FakeResponse, patched_http
 ID = 'C28'
 LEVEL = 'fault_enumeration'
 LEVEL_TEXT = ('the rotation state is one integer modulo n; every outcome sequence up to a length well beyond n is enumerated for n = 1..4 and for '
-              'every entry point (raw request, get/post, the ShellQuery layer incl. streaming monitors), so every reachable behaviour is decided')
-RULE = ('every outcome sequence of length L over {ok,404,500-permanent,ConnectionError} x n in 1..4 nodes x '
-        'entry in {request, get, post, the ShellQuery layer alternating monitor streams and GETs}; non-trivial = sequence with at least one failure followed by a later request '
-        '(distinct by (n, sequence))')
-BOUND = {'quick': 'n<=4, L=7, 4 outcomes, entries: request and ShellQuery (monitor/GET)', 'thorough': 'n<=4, L=9, 4 outcomes, 4 entry methods'}
-ASSUMPTIONS = ['requests.request and sleep are the only environment seams of RpcNode.request']
+              'every entry point (raw request, get/post, the ShellQuery layer incl. streaming monitors, queries with their own timeout and every '
+              'registered query class), for a long-lived client beyond 2^16 requests, for two clients used alternately in one process and for one '
+              'client used through several handles, so every reachable behaviour within those bounds is decided')
+RULE = ('seq: every outcome sequence of length L over {ok,404,500-permanent,ConnectionError} x n in 1..4 nodes x entry in {request, get, post, '
+        'ShellQuery layer cycling monitor/GET/raw-bytes/POST/raw-json queries, in several phases} plus every word over (query kind x outcome) of '
+        'length P; long: one client per (n, entry) fed every outcome word of width W back to back for N requests; multi: every word of length M over '
+        '(client A|B x outcome) for every ordered pair (n_a, n_b), clients created at first use; shared: every word of length S over (handle in two '
+        'shells + raw client x outcome); tree: every registered RpcQuery class x {itself, child attr, child item} x {GET, helper verb} x outcome pair. '
+        'non-trivial = a case (for long: an outcome word) in which a call FAILED (raised) and a later request was issued; distinct by the whole case')
+BOUND = {'quick': 'n<=4; seq L=7 (request), L=6 x 2 phases (shell), P=3; long N=2^16+16 (request) / 2^13+16 (shell), W=8; multi M=4 (request) / 3 (shell), '
+                  'lazy creation; shared S=3; tree: 49 registered query classes + 2 plain paths',
+         'thorough': 'n<=4; seq L=9 (request, get, post), L=7 x 3 phases (shell), P=4; long N=2^20+16 (request, get, post) / 2^16+16 (shell), W=10; '
+                     'multi M=5 (request) / 4 (shell), lazy and upfront creation; shared S=4; tree: 49 registered query classes + 2 plain paths'}
+ASSUMPTIONS = ['requests.request and sleep are the only environment seams of RpcNode.request',
+               'a counter wrap beyond 2^16 (quick) / 2^20 (thorough) requests of one client is out of reach of enumeration']
 OUTCOMES = ['ok', 'e404', 'e500', 'exc']
+SHELL_KINDS = ['monitor', 'get', 'rawb', 'post', 'rawj']
+DIRECT = ('request', 'get', 'post')
+
+D_AFTER_FAIL = 'request after failure goes to wrong node'
+D_AFTER_OK = 'request after success goes to wrong node'
+D_LONG = 'request of a long-lived client goes to wrong node'
+D_MULTI = 'request goes to wrong node when another multi-node client is used in the same process'
+D_SHARED = 'request goes to wrong node when one client is used through several handles'
+D_TREE = 'request through a query class of the ShellQuery tree goes to wrong node'
+
+
+
+class _Response(FakeResponse):
+    def iter_lines(self):   # streaming (monitor) replies
+        return iter(self.text.encode().splitlines())
+
+
+_URL = re.compile(r'http://c(\d+)n(\d+)\.invalid/')
+
+
+# ----------------------------------------------------------------------------------------------------------------
+# the recording environment
+# ----------------------------------------------------------------------------------------------------------------
+class Session:
+    """Real RpcMultiNode clients over one recording fake of requests.request."""
+
+    def __init__(self):
+        self.clients = []
+        self.ns = []
+        self.sent = []      # per client: node indices in wire order
+        self.nwire = 0      # every request seen on the wire, whoever sent it
+        self.outcome = 'ok'
+        import requests.exceptions
+        from pytezos.rpc.node import RpcError, RpcMultiNode
+        self.RpcError, self.RpcMultiNode, self.ConnectionError = RpcError, RpcMultiNode, requests.exceptions.ConnectionError
+
+    def client(self, n):
+        c = len(self.clients)
+        self.clients.append(self.RpcMultiNode([f'http://c{c}n{i}.invalid' for i in range(n)]))
+        self.ns.append(n)
+        self.sent.append([])
+        return c
+
+    def fake(self, **kw):
+        self.nwire += 1
+        m = _URL.match(str(kw.get('url')))
+        if m is not None and int(m.group(1)) < len(self.sent):
+            self.sent[int(m.group(1))].append(int(m.group(2)))
+        o = self.outcome
+        if o == 'ok':
+            return _Response(200, {'x': 1})
+        if o == 'e404':
+            return _Response(404, 'nope', 'text/plain')
+        if o == 'e500':
+            return _Response(500, [{'kind': 'permanent', 'id': 'x.y'}])
+        raise self.ConnectionError('boom')
+
+    def call(self, c, fn, outcome, exact=True):
+        """One call on behalf of client c.  Returns (how the call ended, None | why the rotation is broken).
+        exact: the call is one request by construction; otherwise every request it issues is judged."""
+        sent, n = self.sent[c], self.ns[c]
+        before, w0 = len(sent), self.nwire
+        self.outcome = outcome
+        try:
+            fn()
+            res = 'returned'
+        except self.RpcError:
+            res = 'RpcError'
+        except Exception as e:  # transport errors, and whatever a broken client may raise
+            res = 'transport error' if type(e).__name__ == 'ConnectionError' else 'other exception'
+        new = sent[before:]
+        bad = None
+        if self.nwire - w0 != len(new):
+            bad = f'{self.nwire - w0 - len(new)} request(s) left for a node that is not one of this client'
+        elif exact and len(new) != 1:
+            bad = f'the call put {len(new)} requests on the wire (nodes {new}), expected 1 to node {before % n}'
+        else:
+            for j, h in enumerate(new):
+                if h != (before + j) % n:
+                    bad = f'request #{before + j} of the client reached node {h}, expected {(before + j) % n}'
+                    break
+        return res, bad
+
+
+def _shell_call(shell, kind):
+    if kind == 'monitor':
+        shell.monitor.bootstrapped()
+    elif kind == 'get':
+        shell.chains.main.chain_id()
+    elif kind == 'rawb':
+        shell.head.context.raw.bytes(depth=0)
+    elif kind == 'rawj':
+        shell.blocks['head~2'].context.raw.json.big_maps.index[7].total_bytes()
+    else:
+        shell.head.context.seed.post()
+
+
+def _direct_call(client, method):
+    if method == 'request':
+        client.request('GET', 'p')
+    elif method == 'get':
+        client.get('p')
+    else:
+        client.post('p', json={})
+
+
+def _plain(prev):
+    """Descriptor of a failure that needs nothing but one client and one handle."""
+    return D_AFTER_FAIL if prev not in ('ok', '-') else D_AFTER_OK
+
+
+def _res_class(results):
+    s = set(results) - {'returned'}
+    return 'every call returned' if not s else ' + '.join(sorted(s))
+
+
+def _nontrivial(results):
+    return any(x != 'returned' for x in results[:-1])
+
+
+# ----------------------------------------------------------------------------------------------------------------
+# the five families.  Each runner returns (violations, results per call, observation)
+# ----------------------------------------------------------------------------------------------------------------
+def _kinds_of(case):
+    if case.get('method', 'request') != 'shell':
+        return None
+    if 'kinds' in case:
+        return list(case['kinds'])
+    return [('monitor', 'get')[i % 2] for i in range(len(case['seq']))]  # cases recorded before the kinds were explicit
+
+
+def run_seq(case):
+    from pytezos.rpc.shell import ShellQuery
+    n, seq, method = case['n'], case['seq'], case.get('method', 'request')
+    kinds = _kinds_of(case)
+    s = Session()
+    results, out = [], []
+    with patched_http(s.fake, lambda d: None):
+        c = s.client(n)
+        cl = s.clients[c]
+        shell = ShellQuery(node=cl) if kinds else None
+        for i, o in enumerate(seq):
+            if kinds:
+                res, bad = s.call(c, lambda: _shell_call(shell, kinds[i]), o)
+            else:
+                res, bad = s.call(c, lambda: _direct_call(cl, method), o)
+            results.append(res)
+            if bad:
+                prev = seq[i - 1] if i else '-'
+                out.append((_plain(prev),
+                            f'n={n} entry={method} kinds={kinds} seq={list(seq)} call #{i}: {bad}; wire={s.sent[c]}'))
+                break
+    return out, results, s.sent
+
+
+def long_outcome(j, W):
+    """Outcome of request j: the outcome words of width W in counting order, back to back."""
+    k, pos = divmod(j, W)
+    return OUTCOMES[(k // 4 ** (W - 1 - pos)) % 4]
+
+
+def run_long(case, r=None):
+    from pytezos.rpc.shell import ShellQuery
+    n, N, W, method = case['n'], case['N'], case['W'], case['method']
+    s = Session()
+    out = []
+    word = []
+    with patched_http(s.fake, lambda d: None):
+        c = s.client(n)
+        cl = s.clients[c]
+        shell = ShellQuery(node=cl) if method == 'shell' else None
+        for j in range(N):
+            o = long_outcome(j, W)
+            if shell is not None:
+                kind = SHELL_KINDS[j % 5]
+                res, bad = s.call(c, lambda: _shell_call(shell, kind), o)
+            else:
+                res, bad = s.call(c, lambda: _direct_call(cl, method), o)
+            word.append(res)
+            if bad:
+                out.append((D_LONG if j >= 16 else _plain(long_outcome(j - 1, W) if j else '-'),
+                            f'n={n} entry={method} one client, outcome words of width {W} back to back: call #{j}: {bad}; '
+                            f'previous nodes {s.sent[c][-6:-1]}'))
+                break
+            if len(word) == W:
+                if r is not None:
+                    r.ev()
+                    if _nontrivial(word):
+                        r.nt(('long', n, method, j // W))
+                    r.out(f'long/{method}: {_res_class(word)}')
+                word = []
+    tail = s.sent[c][-8:]
+    return out, [], {'requests': len(s.sent[c]), 'last': tail}
+
+
+def run_multi(case):
+    """Two clients (n_a, n_b nodes) in one process; word = [[client, outcome], ...]."""
+    from pytezos.rpc.shell import ShellQuery
+    ns, word, entry, create = case['ns'], case['word'], case['entry'], case.get('create', 'lazy')
+    s = Session()
+    ids, shells = {}, {}
+    results, out = [], []
+
+    def make(which):
+        ids[which] = s.client(ns[which])
+        if entry == 'shell':
+            shells[which] = ShellQuery(node=s.clients[ids[which]])
+
+    with patched_http(s.fake, lambda d: None):
+        if create == 'upfront':
+            make(0)
+            make(1)
+        for i, (which, o) in enumerate(word):
+            if which not in ids:
+                make(which)
+            c = ids[which]
+            if entry == 'shell':
+                kind = SHELL_KINDS[(i + 1) % 5]
+                res, bad = s.call(c, lambda: _shell_call(shells[which], kind), o)
+            else:
+                res, bad = s.call(c, lambda: _direct_call(s.clients[c], 'request'), o)
+            results.append(res)
+            if bad:
+                both = len({w for w, _ in word[:i + 1]}) == 2
+                out.append((D_MULTI if both else _plain(word[i - 1][1] if i else '-'), f'clients A,B with {ns} nodes ({create} creation), entry={entry}, word={word}: call #{i} on client '
+                                     f'{"AB"[which]}: {bad}; wire per client={[s.sent[ids[k]] for k in sorted(ids)]}'))
+                break
+    return out, results, [s.sent[ids[k]] if k in ids else None for k in (0, 1)]
+
+
+def run_shared(case):
+    """One client used through handles 0,1 (two ShellQuery trees) and 2 (the client itself)."""
+    from pytezos.rpc.shell import ShellQuery
+    n, word = case['n'], case['word']
+    s = Session()
+    results, out = [], []
+    with patched_http(s.fake, lambda d: None):
+        c = s.client(n)
+        cl = s.clients[c]
+        shells = [ShellQuery(node=cl), ShellQuery(node=cl)]
+        for i, (h, o) in enumerate(word):
+            if h == 2:
+                res, bad = s.call(c, lambda: _direct_call(cl, 'get'), o)
+            else:
+                kind = SHELL_KINDS[(i + 2) % 5]
+                res, bad = s.call(c, lambda: _shell_call(shells[h], kind), o)
+            results.append(res)
+            if bad:
+                several = len({w for w, _ in word[:i + 1]}) > 1
+                out.append((D_SHARED if several else _plain(word[i - 1][1] if i else '-'), f'n={n} handles 0,1 = two ShellQuery trees, 2 = the client itself; word={word}: call #{i}: {bad}; '
+                                      f'wire={s.sent[c]}'))
+                break
+    return out, results, s.sent
+
+
+def tree_paths():
+    """Every registered query class of the tree, plus two plain documented paths as controls."""
+    import pytezos.rpc  # noqa: F401  (registers the classes)
+    from pytezos.rpc.query import RpcQuery
+    paths = sorted(p for p in RpcQuery.__extensions__ if p)
+    return paths + ['/version', '/chains/{}/blocks/{}/header']
+
+
+def _navigate(shell, wild_path):
+    q = shell
+    prev = ''
+    for seg in wild_path.strip('/').split('/'):
+        if seg == '{}':
+            q = q[{'chains': 'main', 'blocks': 'head'}.get(prev, '0')]
+        else:
+            q = getattr(q, seg)
+        prev = seg
+    return q
+
+
+def tree_actions(path):
+    """(verb, args) pairs available on the query class registered for this path."""
+    from pytezos.rpc.query import RpcQuery
+    cls = RpcQuery.__extensions__.get(path, RpcQuery)
+    acts = [('call', None)]
+    for verb in ('post', 'put', 'delete'):
+        f = getattr(cls, verb, None)
+        if f is None:
+            continue
+        req = [p for p in list(inspect.signature(f).parameters.values())[1:]
+               if p.default is p.empty and p.kind in (p.POSITIONAL_ONLY, p.POSITIONAL_OR_KEYWORD)]
+        if req:
+            acts += [(verb, [a] * len(req)) for a in ({}, '00')]
+        else:
+            acts.append((verb, []))
+    return acts
+
+
+def run_tree(case):
+    """probe, X (fresh navigation), probe, X again on the same query object, probe - judged request by request."""
+    from pytezos.rpc.shell import ShellQuery
+    n, path, below, verb, args, outs = case['n'], case['path'], case['below'], case['verb'], case['args'], case['outs']
+    s = Session()
+    results, out, counts = [], [], []
+    state = {}
+    with patched_http(s.fake, lambda d: None):
+        c = s.client(n)
+        shell = ShellQuery(node=s.clients[c])
+
+        def x():
+            q = state.get('q')
+            if q is None:
+                q = _navigate(shell, path)
+                if below == 'attr':
+                    q = q.x
+                elif below == 'item':
+                    q = q['0']
+                state['q'] = q
+            if verb == 'call':
+                q()
+            else:
+                getattr(q, verb)(*args)
+
+        def probe():
+            shell.chains.main.chain_id()
+
+        plan = [(probe, 'ok', True), (x, outs[0], False), (probe, outs[1], True), (x, outs[1], False), (probe, 'ok', True)]
+        for i, (fn, o, exact) in enumerate(plan):
+            before = len(s.sent[c])
+            res, bad = s.call(c, fn, o, exact)
+            results.append(res)
+            counts.append(len(s.sent[c]) - before)
+            if bad:
+                out.append((D_TREE, f'n={n} query {path} ({below or "itself"}).{verb}{tuple(args or ())} outcomes={outs}: step #{i} of '
+                                    f'[probe, X, probe, X, probe]: {bad}; wire={s.sent[c]}'))
+                break
+    return out, results, {'wire': s.sent, 'requests_per_step': counts, 'reached': type(state.get('q')).__name__}
+
+
+RUNNERS = {'seq': run_seq, 'long': run_long, 'multi': run_multi, 'shared': run_shared, 'tree': run_tree}
+
+
+def run_case(case):
+    return RUNNERS[case.get('kind', 'seq')](case)
+
+
+# ----------------------------------------------------------------------------------------------------------------
+# shards
+# ----------------------------------------------------------------------------------------------------------------
+def _cost(spec, tier):
+    """Rough CPU estimate in ms (measured per request: raw client 0.035, through the query layer 0.35), only used to balance the lanes."""
+    k = spec[0]
+    if k == 'seq':
+        _, n, L, first, method, shift = spec
+        return 4 ** (L - 1) * L * (0.375 if method == 'shell' else 0.035)
+    if k == 'prod':
+        _, n, P, first, k0 = spec
+        return 20 ** (P - 1) * (5 if k0 is None else 1) * P * 0.32
+    if k == 'long':
+        return spec[2] * (0.324 if spec[3] == 'shell' else 0.03)
+    if k == 'multi':
+        _, na, nb, M, entry, create, first = spec
+        return 8 ** M / (1 if first is None else 4) * M * (0.4 if entry == 'shell' else 0.04)
+    if k == 'shared':
+        _, n, S, first = spec
+        return 3 * 12 ** (S - 1) * S * 0.35
+    return 450 * 1.2
 
 
 def shards(tier, seed):
-    L = 7 if tier == 'quick' else 9
-    methods = ['request', 'shell'] if tier == 'quick' else ['request', 'get', 'post', 'shell']
-    return [(n, L, first, m) for n in (1, 2, 3, 4) for first in OUTCOMES for m in methods]
-
-
-def drive(n, seq, method='request'):
-    """Run the real client; return the list of node indices that received each request."""
-    from pytezos.rpc.node import RpcMultiNode
-    import requests.exceptions
-    uris = [f'http://node{i}.invalid' for i in range(n)]
-    hits = []
-    it = iter(seq)
-    cur = {}
-
-    def fake_request(**kw):
-        url = kw['url']
-        hits.append(next(i for i, u in enumerate(uris) if url.startswith(u + '/')))
-        o = cur['o']
-        if o == 'ok':
-            return FakeResponse(200, {'x': 1})
-        if o == 'e404':
-            return FakeResponse(404, 'nope', 'text/plain')
-        if o == 'e500':
-            return FakeResponse(500, [{'kind': 'permanent', 'id': 'x.y'}])
-        raise requests.exceptions.ConnectionError('boom')
-
-    client = RpcMultiNode(uris)
-    shell = None
-    if method == 'shell':
-        # the same client behind the real query layer: plain GETs and streaming monitor subscriptions alternate
-        from pytezos.rpc.shell import ShellQuery
-        shell = ShellQuery(node=client)
-    nreq = 0
-    with patched_http(fake_request, lambda d: None):
-        for o in it:
-            cur['o'] = o
-            before = len(hits)
-            try:
-                nreq += 1
-                if method == 'shell':
-                    if nreq % 2:
-                        shell.monitor.bootstrapped()
-                    else:
-                        shell.chains.main.chain_id()
-                elif method == 'request':
-                    client.request('GET', 'p')
-                elif method == 'get':
-                    client.get('p')
-                else:
-                    client.post('p', json={})
-            except Exception:
-                pass
-            if len(hits) != before + 1:
-                hits.append(None)  # no request / several requests for one call
-                del hits[before + 1:]
-    return hits
-
-
-def check(n, seq, method):
-    hits = drive(n, seq, method)
+    q = tier == 'quick'
+    sp = []
+    for n in (1, 2, 3, 4):
+        for first in OUTCOMES:
+            for m in (['request'] if q else list(DIRECT)):
+                sp.append(('seq', n, 7 if q else 9, first, m, 0))
+            for shift in ((0, 3) if q else (0, 2, 4)):
+                sp.append(('seq', n, 6 if q else 7, first, 'shell', shift))
+            for k0 in ([None] if q else SHELL_KINDS):
+                sp.append(('prod', n, 3 if q else 4, first, k0))
+            sp.append(('shared', n, 3 if q else 4, first))
+        for m in (['request', 'shell'] if q else list(DIRECT) + ['shell']):
+            N = (2 ** (13 if q else 16) if m == 'shell' else 2 ** (16 if q else 20)) + 16
+            sp.append(('long', n, N, m, 8 if q else 10))
+        for part in range(8):
+            sp.append(('tree', n, part, 8))
+    for na in (1, 2, 3, 4):
+        for nb in (1, 2, 3, 4):
+            for entry in ('request', 'shell'):
+                M = (3 if q else 4) if entry == 'shell' else (4 if q else 5)
+                for create in (['lazy'] if q else ['lazy', 'upfront']):
+                    for first in ([None] if q else OUTCOMES):
+                        sp.append(('multi', na, nb, M, entry, create, first))
+    # static lanes are shards[k::16]: order by cost, boustrophedon, so that the lanes are balanced
+    sp.sort(key=lambda x: (-_cost(x, tier), repr(x)))
     out = []
-    for i, h in enumerate(hits):
-        if h != i % n:
-            prev = seq[i - 1] if i else '-'
-            out.append((f'request after {"failure" if prev != "ok" else "success"} goes to wrong node',
-                        f'n={n} seq={list(seq)} request #{i} reached node {h}, expected {i % n}; hits={hits}'))
-            break
+    for g in range(0, len(sp), 16):
+        grp = sp[g:g + 16]
+        out += grp if (g // 16) % 2 == 0 else grp[::-1]
     return out
 
 
+def _cases(spec):
+    k = spec[0]
+    if k == 'seq':
+        _, n, L, first, method, shift = spec
+        for rest in itertools.product(OUTCOMES, repeat=L - 1):
+            case = {'kind': 'seq', 'n': n, 'seq': [first, *rest], 'method': method}
+            if method == 'shell':
+                case['kinds'] = [SHELL_KINDS[(i + shift) % 5] for i in range(L)]
+            yield case
+    elif k == 'prod':
+        _, n, P, first, only = spec
+        letters = [(kd, o) for kd in SHELL_KINDS for o in OUTCOMES]
+        for k0 in (SHELL_KINDS if only is None else [only]):
+            for rest in itertools.product(letters, repeat=P - 1):
+                w = [(k0, first), *rest]
+                yield {'kind': 'seq', 'n': n, 'seq': [o for _, o in w], 'method': 'shell', 'kinds': [kd for kd, _ in w]}
+    elif k == 'multi':
+        _, na, nb, M, entry, create, first = spec
+        letters = [[c, o] for c in (0, 1) for o in OUTCOMES]
+        for w in itertools.product(letters, repeat=M):
+            if first is not None and w[0][1] != first:
+                continue
+            yield {'kind': 'multi', 'ns': [na, nb], 'word': [list(x) for x in w], 'entry': entry, 'create': create}
+    elif k == 'shared':
+        _, n, S, first = spec
+        letters = [[h, o] for h in (0, 1, 2) for o in OUTCOMES]
+        for h0 in (0, 1, 2):
+            for rest in itertools.product(letters, repeat=S - 1):
+                yield {'kind': 'shared', 'n': n, 'word': [[h0, first], *[list(x) for x in rest]]}
+    elif k == 'tree':
+        _, n, part, parts = spec
+        for i, path in enumerate(tree_paths()):
+            if i % parts != part:
+                continue
+            for below in ('', 'attr', 'item'):
+                for verb, args in tree_actions(path) if not below else [('call', None)]:
+                    for o1 in OUTCOMES:
+                        for o2 in OUTCOMES:
+                            yield {'kind': 'tree', 'n': n, 'path': path, 'below': below, 'verb': verb, 'args': args, 'outs': [o1, o2]}
+
+
 def run_shard(spec, tier):
-    n, L, first, method = spec
     r = Result()
-    for rest in itertools.product(OUTCOMES, repeat=L - 1):
-        seq = (first,) + rest
+    if spec[0] == 'long':
+        _, n, N, method, W = spec
+        case = {'kind': 'long', 'n': n, 'N': N, 'W': W, 'method': method}
+        vs, _, _ = run_long(case, r)
+        for d, detail in vs:
+            r.out('rotation-broken')
+            r.viol(d, case, detail)
+        return r
+    case = None
+    for case in _cases(spec):
         r.ev()
-        if any(o != 'ok' for o in seq[:-1]):
-            r.nt((n, seq))
-        case = {'n': n, 'seq': list(seq), 'method': method}
-        vs = check(n, seq, method)
-        r.out('rotation-ok' if not vs else 'rotation-broken')
+        vs, results, obs = run_case(case)
+        kind = case['kind']
+        if _nontrivial(results):
+            r.nt(json.dumps(case, sort_keys=True))
+        if vs:
+            r.out('rotation-broken')
+        elif kind == 'tree':
+            a, b = obs['requests_per_step'][1], obs['requests_per_step'][3]
+            r.out(f'tree: the query issued {a if a < 2 else "several"} request(s), then {b if b < 2 else "several"}; {_res_class(results)}')
+            if a == 0 and b == 0:
+                r.no_verdict += 1   # the helper refused the placeholder arguments before sending anything: only the probes were judged
+        else:
+            r.out(f'{kind}/{case.get("method") or case.get("entry") or "handles"}: {_res_class(results)}')
         for d, detail in vs:
             r.viol(d, case, detail)
-        if first == 'e404' and rest[:2] == ('ok', 'exc') and len(r.samples) < 1:
+        if spec[0] == 'seq' and spec[3] == 'e404' and case['seq'][1:3] == ['ok', 'exc'] and len(r.samples) < 1:
             r.sample(case)
-    r.sample(case)
+    if case is not None:
+        r.sample(case)
     return r
 
 
 def replay(case):
-    return check(case['n'], tuple(case['seq']), case.get('method', 'request'))
+    return run_case(case)[0]
+
+
+_FRESH = r"""
+import sys, os, json
+from mc import run
+run._setup_paths(); run._guard_network()
+import logging; logging.disable(logging.CRITICAL)
+import pytezos.rpc
+from mc.props import c28
+from mc.engine import report
+for case in report.unjson(json.loads(sys.stdin.read())):
+    rd, wr = os.pipe()
+    pid = os.fork()            # every case starts from the state of a process that has never created a client
+    if pid == 0:
+        try:
+            vs, results, obs = c28.run_case(case)
+            msg = json.dumps(report.jsonable([obs, results, [d for d, _ in vs]]))
+        except BaseException as e:
+            msg = json.dumps(['harness', repr(e), []])
+        os.write(wr, msg.encode())
+        os._exit(0)
+    os.close(wr)
+    buf = b''
+    while True:
+        chunk = os.read(rd, 65536)
+        if not chunk:
+            break
+        buf += chunk
+    os.close(rd)
+    os.waitpid(pid, 0)
+    sys.stdout.write('OBS ' + buf.decode() + '\n')
+"""
+
+
+def fresh(cases):
+    """[observation, how each call ended, violated descriptors] of each case, each one run in a process that has done nothing
+    before: a case builds every client it uses, so its verdict must not depend on what this process happened to do earlier."""
+    from mc.engine import report
+    here = os.path.dirname(os.path.dirname(os.path.dirname(os.path.abspath(__file__))))
+    env = dict(os.environ, PYTHONPATH=here + os.pathsep + os.environ.get('PYTHONPATH', ''), PYTHONHASHSEED='0')
+    p = subprocess.run([sys.executable, '-W', 'ignore', '-c', _FRESH], input=json.dumps(report.jsonable(list(cases))),
+                       capture_output=True, text=True, env=env, cwd=here)
+    out = [json.loads(line[4:]) for line in p.stdout.splitlines() if line.startswith('OBS ')]
+    if p.returncode or len(out) != len(cases) or any(o and o[0] == 'harness' for o in out):
+        raise RuntimeError(f'observation process failed (exit {p.returncode}): {out!r:.300} {p.stderr[-800:]}')
+    return out
 
 
 def observe(case):
-    return drive(case['n'], tuple(case['seq']), case.get('method', 'request'))
+    """Observed in a fresh process (see fresh): state that the code under test keeps at class or module level would otherwise
+    make two observations of one case differ, and hide the violation behind a harness error."""
+    return fresh([case])[0]
+
+
+def finalize(res, tier):
+    """Violations only: put first, for every descriptor, a recorded case that also fails on its own in a fresh process (it is the
+    one written to the replay file), and say so where a failure was seen only after other cases had run in the same process."""
+    from mc.engine.report import unjson
+    todo = [(d, i, c) for d, v in sorted(res.violations.items()) for i, c in enumerate(v['cases'])]
+    if not todo:
+        return
+    verdicts = fresh([unjson(c['case']) for _, _, c in todo])
+    for (d, i, c), (_, _, descs) in zip(todo, verdicts):
+        c['alone'] = d in descs
+        if not c['alone']:
+            c['detail'] += (' [seen after other cases had run in the same process; on its own in a fresh process this case '
+                            + ('fails as: ' + '; '.join(descs) if descs else 'holds') + ' - the code under test carries state from one client to another]')
+    for d, v in res.violations.items():
+        v['cases'].sort(key=lambda c: not c.pop('alone'))
